@@ -30,9 +30,9 @@ def run(repo):
                            capture_output=True, text=True)
         out = r.stdout + r.stderr
         res = {}
-        for m in re.finditer(r'test src/lib\.rs - (W\d) \(line \d+\)( - compile fail)? \.\.\. (\w+)', out):
+        for m in re.finditer(r'test src/lib\.rs - (W\d) \(line \d+\)( - compile fail| - compile)? \.\.\. (\w+)', out):
             w, cf, status = m.group(1), m.group(2), m.group(3)
-            res.setdefault(w, []).append((bool(cf), status == 'ok'))
+            res.setdefault(w, []).append((cf or '', status == 'ok'))
         failed = sorted(w for w, rs in res.items() if not all(ok for _cf, ok in rs))
         n = sum(len(v) for v in res.values())
         err = None
